@@ -7,6 +7,7 @@ await point between its lookup and its clean-up, so it has nothing to cancel (DE
 -/
 import Lockable.Proofs.NoPanic
 import Lockable.Proofs.Erasure
+import Lockable.Props.C15
 namespace Lockable
 
 /-- a handle whose owner is a pending future that can be dropped -/
@@ -135,5 +136,61 @@ example :
     let s := run (State.init .hashMap) [.lookup 1 7]
     (∃ m, s.ent 7 = some m ∧ m.holder = some 1) ∧ s.hs 2 = none ∧ s.touch 7 = s := by
   refine ⟨⟨_, rfl, rfl⟩, by decide, rfl⟩
+
+/-- **A lock call abandoned while its (async) eviction callback is pending**: the callback's future is dropped with the call
+and releases the guards it was given, untouched — every one of them is gone, no stored value changed, the handle of the
+requested key was never created, and the full invariant holds (so counts are exact and every later operation works). -/
+theorem C06_abandon_suspended (a : Api) (h : Nat) (su : Susp) (hi : Inv a.s)
+    (hall : ∀ c ∈ su.cands.map Prod.fst, ∃ hd, a.s.hs c = some hd ∧ hd.st = .holding)
+    (hnd : (su.cands.map Prod.fst).Nodup) (hnot : h ∉ su.cands.map Prod.fst) :
+    Inv (a.abandon h su).s ∧ (∀ k, absVal (a.abandon h su).s k = absVal a.s k) ∧
+    (∀ c ∈ su.cands.map Prod.fst, (a.abandon h su).s.hs c = none) ∧ (a.abandon h su).s.hs h = a.s.hs h ∧
+    (a.abandon h su).susp.lookup h = none := by
+  unfold Api.abandon
+  obtain ⟨r1, r2, r3⟩ := C15_unwind (su.cands.map Prod.fst) { a with susp := a.susp.filter fun (i, _) => i ≠ h } hi hall hnd
+  refine ⟨r1, r2, r3, dropAll_hs_other _ h hnot _, ?_⟩
+  have : ∀ (l : List Nat) (b : Api), (b.dropAll l).susp = b.susp := by
+    intro l
+    induction l with
+    | nil => intro b; rfl
+    | cons x xs ih =>
+      intro b
+      simp only [Api.dropAll, List.foldl] at ih ⊢
+      rw [ih]
+      have hw : ∀ (c : Api) (w : Option Nat), (c.woken w).susp = c.susp := by
+        intro c w; unfold Api.woken; split <;> rfl
+      unfold Api.dropGuard
+      simp only []
+      split
+      · rw [hw]
+      · rfl
+  rw [this]
+  simp only []
+  induction a.susp with
+  | nil => rfl
+  | cons x xs ih =>
+    simp only [List.filter]
+    split
+    · rename_i hx
+      simp only [List.lookup]
+      have : (h == x.1) = false := by
+        simp only [decide_eq_true_eq] at hx
+        simp [Ne.symm hx]
+      rw [this]; exact ih
+    · exact ih
+
+/-- non-vacuity: an `async_lock` at the limit whose callback future is pending holds the guard of key 1; it is abandoned: key 1
+is unlocked again with its value, nothing else remains; polled instead, the callback removes the entry and the call gets key 9 -/
+example :
+    let a0 : Api := Api.init .lru
+    let a1 := ((a0.exec (.lock .wait 1 1 .none 100)).1.exec (.op 1 (.insert 10))).1
+    let a2 := (a1.exec (.drop 1)).1
+    let r := a2.exec (.lock .wait 3 9 (.soft 1 [⟨[.rm], false, .pendOk⟩]) 200)
+    let a3 := (r.1.exec (.cancel 3)).1
+    let a4 := (r.1.exec (.poll 3)).1
+    (r.1.susp.lookup 3).isSome = true ∧ r.1.s.hs 200 = some ⟨1, 0, .holding⟩ ∧
+      a3.s.order = [1] ∧ absVal a3.s 1 = some 10 ∧ a3.s.hs 200 = none ∧ a3.susp.isEmpty = true ∧
+      a4.s.order = [9] ∧ a4.s.hs 3 = some ⟨9, 1, .holding⟩ ∧ a4.susp.isEmpty = true := by
+  decide
 
 end Lockable
